@@ -353,7 +353,7 @@ func init() {
 	fw.Register(&fw.Prop{
 		ID:    "C17",
 		Level: "exploration",
-		Rule: "every program of the feature profile (each constant kind, cells/free variables, keyword-only parameters, varargs/kwargs, docstrings, several loads, recursion flag, saturated position deltas) and of the C01 grammar profiles up to the completed size level: " +
+		Rule: "every program of the feature profile (each constant kind, cells/free variables, keyword-only parameters, varargs/kwargs, docstrings, several loads, recursion flag, saturated position deltas) and of the C01 grammar profiles up to the completed size level; integer constants on both sides of every width boundary in both signs; after the comparison of the two executions the original and the reloaded program are written again (same bytes) and executed again, as is a program read from a *bytes.Buffer that was then overwritten and refilled: " +
 			"compile, Write, CompiledProgram, Write again (bytes must be equal), execute both programs in identical fresh environments and compare probe trace, globals, error text, call stack positions, backtrace, function metadata, load list and step count; " +
 			"non-trivial = programs with a side effect, an error or at least one function value",
 		Run: run, Worker: worker, Replay: replay,
